@@ -58,6 +58,23 @@ STRENGTHENED = {
     "G_listops-B": "missed: sort bodies were pure and lists had no repeated items -> eager higher-order elements (sort, reduce) with printing / register-touching bodies over lists and inputs with repeats",
     "G_modifiers-A": "missed: modifier operands were single elements -> every modifier around explicit lambdas of arity 1-3 whose bodies have several consuming elements",
     "G_modifiers-C": "missed: lambdas were only called through the call element -> lambdas declaring 1-3 parameters called with one argument by map / filter (the library's apply protocol), forced in order",
+    # sixth wave (agents were given the list of ideas already used and asked for longer histories, deeper nesting, boundary data, interactions)
+    "H_gen-A": "missed: the code page was only decoded from lists of ints -> every byte and byte pair also as bytes / bytearray (what the v flag passes)",
+    "H_lex-A": "missed: no context put a later X / x after a modifier whose operand is the literal -> 12 such contexts (the parent that X / x refers to is part of the compared shape)",
+    "H_gen-C": "missed: every payload position stood alone -> a literal followed (directly or after elements) by a bare arrow / loop without a name: no text may carry over between tokens",
+    "H_gen-B": "missed: numeric parameters were 0 1 2 -> every digit string <=3 over 0 1 7 (leading zeros) as parameter count and lambda arity",
+    "H_num-A": "missed: primality was compared up to 2*10^4 plus Carmichael numbers -> 18 strong pseudoprimes (psi_k values and friends, each with a factor proving it composite) + 5 Mersenne primes; also fixed: my own classification of a violating n used trial division and did not return for these",
+    "H_num-C": "missed: arguments were Python ints only -> the same definitions with sympy Integers (what a program's own literals push) for n <= 2000 and pairs <= 40",
+    "H_num-B": "missed: expression trees had small leaves -> all left-deep operator chains of 2-3 operators (4 over / *) whose leaves are 10^6, 999983, 2^31 (delivered as inputs)",
+    "H_struct-A": "missed: lambdas reading n were only called with as many arguments as they declare -> n-reading lambdas of declared arity none/1/2/3 under reduce / map / filter / call",
+    "H_vec-B": "missed: the string scalars were '' and 'ab' (even length) -> '7' (odd length, also a number)",
+    "H_codec-A": "missed: dictionary words were the first 60 [150] + boundary ones -> every one of the 23 113 dictionary words on its own (and after 'a ' / before ' a')",
+    "H_codec-C": "missed: the quoted text was only run as a program -> also q then the exec element inside a program, under both compression settings",
+    "H_lazy-C": "missed by C14 (C16 caught it): the source 2,4,8,... never yields a constant stream, and the finite twin (same library code) was consulted for every over-budget pipeline -> second source 1,2,3,... for pipelines without a value-dependent stage; the twin decides existence only when a value-dependent stage is present",
+    "H_stack-A": "missed by C10 (C13 caught it): every lazy value was fresh when copied -> lazy values that were already looked at through the register (one item memoised) before the copy is made",
+    "H_stack-B": "missed: the number of results was never judged -> documented result counts of the four data-dependent elements (÷ y ₅ Ḋ) over 10 values",
+    "H_io-B": "missed: function bodies popped at most as many values as parameters -> bodies that pop more (the arguments are then read cyclically, in a defined order), arities up to 3",
+    "H_io-C": "missed: no modifier around the input element -> `c ß?` (conditional execute) as an operation of the read histories",
     "C14-C": "missed: the item at index n was read from the cache after has_ind -> a third way of taking the prefix: real indexing result[n]",
 }
 
